@@ -392,6 +392,32 @@ var arpa = rapid.Custom(func(t *rapid.T) string {
 			i = dots[len(dots)-2] // the dot between the labels and "in-addr.arpa" / "ip6.arpa"
 		}
 		return s[:i] + rapid.SampledFrom([]string{"x", "0", "a", "-", "_", ":", "f", "\x00"}).Draw(t, "nodot") + s[i+1:]
+	case 4:
+		// Two dots replaced at once by bytes mirrored around '.' (their sum,
+		// XOR of differences and count stay what they are for two dots): two
+		// neighbouring dots (both separators of one four-byte group of a
+		// full-length ip6.arpa name) or two arbitrary ones.
+		var dots []int
+		for i := 0; i < len(s); i++ {
+			if s[i] == '.' {
+				dots = append(dots, i)
+			}
+		}
+		if len(dots) < 3 {
+			return s
+		}
+		i := rapid.IntRange(0, len(dots)-2).Draw(t, "dot1")
+		j := i + 1
+		if rapid.IntRange(0, 3).Draw(t, "far") == 0 {
+			j = rapid.IntRange(i+1, len(dots)-1).Draw(t, "dot2")
+		}
+		k := byte(rapid.SampledFrom([]int{1, 1, 2, 3, 14, 46}).Draw(t, "k"))
+		b := []byte(s)
+		b[dots[i]], b[dots[j]] = '.'-k, '.'+k
+		if rapid.Bool().Draw(t, "swap") {
+			b[dots[i]], b[dots[j]] = '.'+k, '.'-k
+		}
+		return string(b)
 	}
 	return s
 })
@@ -399,6 +425,37 @@ var arpa = rapid.Custom(func(t *rapid.T) string {
 var arpaBase = rapid.Custom(func(t *rapid.T) string {
 	if rapid.IntRange(0, 14).Draw(t, "idnlong") == 0 {
 		return idnLong.Draw(t, "idn")
+	}
+	if rapid.IntRange(0, 15).Draw(t, "lookalike") == 0 {
+		// A well-formed partial or full name in which exactly one label is a
+		// spelling that a general-purpose number parser takes for the same
+		// kind of value (digit separators, base prefixes, signs, exponents).
+		v6 := rapid.Bool().Draw(t, "v6")
+		var n int
+		var ls []string
+		if v6 {
+			n = rapid.SampledFrom([]int{1, 2, 3, 4, 8, 16, 31, 32}).Draw(t, "n")
+			for i := 0; i < n; i++ {
+				ls = append(ls, arpaNib.Draw(t, "nib"))
+			}
+		} else {
+			n = rapid.IntRange(1, 4).Draw(t, "n")
+			for i := 0; i < n; i++ {
+				ls = append(ls, arpaOct.Draw(t, "oct"))
+			}
+		}
+		ls[rapid.IntRange(0, n-1).Draw(t, "li")] = rapid.SampledFrom([]string{"1_0", "2_5", "1_2_3", "2_5_5", "1_1", "9_9", "1_0_0", "2_0", "+1", "-0", "0x1", "0xa", "0X1", "0b1", "0o7", "1e1", "1e0", "0_1", "1_", "_1", "1__0", "0x_1", "a_", "0xf", "+a", "1.", " 1", "1 ", "\t1", "1\n", "１", "٣", "0x0_1"}).Draw(t, "look")
+		suf := "in-addr.arpa"
+		if v6 {
+			suf = "ip6.arpa"
+		}
+		if rapid.IntRange(0, 3).Draw(t, "sufcase") == 0 {
+			suf = strings.ToUpper(suf)
+		}
+		if rapid.IntRange(0, 3).Draw(t, "sufdot") == 0 {
+			suf += "."
+		}
+		return strings.Join(ls, ".") + "." + suf
 	}
 	if rapid.IntRange(0, 11).Draw(t, "iptext") == 0 {
 		// An address in ordinary text form (IPv4, IPv6, IPv4-mapped, zoned,
